@@ -475,7 +475,8 @@ class SInt(_SymMixin):
     __slots__ = ("t",)
 
     def __init__(self, t: z3.ArithRef) -> None:
-        self.t = t
+        # `type(magnitude)(1)` in library code must also work on a proxy class
+        self.t = t if isinstance(t, z3.ExprRef) else q(int(t))
 
 
 class SReal(_SymMixin, float):
@@ -483,7 +484,7 @@ class SReal(_SymMixin, float):
 
     def __new__(cls, t: z3.ArithRef) -> "SReal":
         self = float.__new__(cls, float("nan"))
-        self.t = t
+        self.t = t if isinstance(t, z3.ExprRef) else real(q(t))
         return self
 
     def is_integer(self) -> bool:
@@ -495,7 +496,7 @@ class SDec(_SymMixin, Decimal):
 
     def __new__(cls, t: z3.ArithRef) -> "SDec":
         self = Decimal.__new__(cls, "NaN")
-        self.t = t
+        self.t = t if isinstance(t, z3.ExprRef) else real(q(t))
         return self
 
 
